@@ -93,9 +93,13 @@ def height(draw, allow_tall=False):
     return draw(st.integers(2, 12))
 
 
+SIZED = {"int": ["int64", "int64", "int32", "int16", "int8", "uint8", "uint16", "uint32", "uint64"],
+         "float": ["float64", "float64", "float32"]}
+
+
 @st.composite
 def table(draw, name, *, fams=("int", "float", "bool", "str", "date", "datetime"), min_cols=2, max_cols=5,
-          allow_tall=False, n=None, names=None, plain_str=False, with_id=True):
+          allow_tall=False, n=None, names=None, plain_str=False, with_id=True, sized=False):
     n = draw(height(allow_tall)) if n is None else n
     ncols = draw(st.integers(min_cols, max_cols))
     if names is None:
@@ -112,11 +116,17 @@ def table(draw, name, *, fams=("int", "float", "bool", "str", "date", "datetime"
     for cn in names:
         fam = draw(st.sampled_from(fams))
         vals = draw(column(fam, n, plain_str=plain_str))
+        dtype = SRC_DTYPE[fam]
+        if sized and fam in SIZED:
+            dtype = draw(st.sampled_from(SIZED[fam]))
+            if dtype not in ("int64", "float64"):
+                # small magnitudes that every width (and float32) represents exactly
+                vals = [None if v is None else (abs(int(v)) % 100 if fam == "int" else float(int(v * 4) % 400) / 4) for v in vals]
         if tall and draw(st.booleans()):
             # long null prefix (schema inference of the SQL export path)
             k = draw(st.integers(100, n - 1))
             vals = [None] * k + [v for v in vals[k:]]
-        cols.append([cn, SRC_DTYPE[fam]])
+        cols.append([cn, dtype])
         data.append(vals)
     rows = [[enc(col[i]) for col in data] for i in range(n)]
     return {"name": name, "cols": cols, "rows": rows}
